@@ -48,6 +48,19 @@ func (s factSet) holds(bit uint) bool {
 	return true
 }
 
+// every: each vector satisfies pred (false for the empty set: the point is not reached).
+func (s factSet) every(pred func(uint) bool) bool {
+	if len(s) == 0 {
+		return false
+	}
+	for v := range s {
+		if !pred(v) {
+			return false
+		}
+	}
+	return true
+}
+
 func (s factSet) addAll(o factSet) bool {
 	ch := false
 	for v := range o {
@@ -63,11 +76,13 @@ type factSummary struct{ all, nilErr, nonNilErr factSet }
 
 // run returns the fact vectors before every instruction of fn.
 func (ff *factFlow) run(fn *ssa.Function, entry uint) map[ssa.Instruction]factSet {
-	before, _ := ff.analyse(fn, factSet{entry: true}, func(v ssa.Value) ssa.Value { return v }, 0)
+	before, _, _ := ff.analyse(fn, factSet{entry: true}, func(v ssa.Value) ssa.Value { return v }, 0)
 	return before
 }
 
-func (ff *factFlow) analyse(fn *ssa.Function, entry factSet, res func(ssa.Value) ssa.Value, depth int) (map[ssa.Instruction]factSet, factSummary) {
+type factEdge struct{ from, to *ssa.BasicBlock }
+
+func (ff *factFlow) analyse(fn *ssa.Function, entry factSet, res func(ssa.Value) ssa.Value, depth int) (map[ssa.Instruction]factSet, factSummary, map[factEdge]factSet) {
 	in := map[*ssa.BasicBlock]factSet{}
 	in[fn.Blocks[0]] = factSet{}
 	in[fn.Blocks[0]].addAll(entry)
@@ -163,7 +178,7 @@ func (ff *factFlow) analyse(fn *ssa.Function, entry factSet, res func(ssa.Value)
 		// the verdict of a bool-valued helper
 		if c := callOf(cond); c != nil {
 			if h := helper(c); h != nil && h.Signature.Results().Len() == 1 {
-				hb, _ := ff.analyse(h, factSet{f: true}, resIn(c, h), depth+1)
+				hb, _, hedges := ff.analyse(h, factSet{f: true}, resIn(c, h), depth+1)
 				any := false
 				for _, blk := range h.Blocks {
 					ret, ok := blk.Instrs[len(blk.Instrs)-1].(*ssa.Return)
@@ -172,6 +187,33 @@ func (ff *factFlow) analyse(fn *ssa.Function, entry factSet, res func(ssa.Value)
 					}
 					rv, rneg := stripNot(ret.Results[0])
 					want := pol != rneg
+					// `return a && b`: the returned value is a phi fed by the edges of the short-circuit
+					// evaluation; each edge brings its own vectors and its own value
+					if ph, isPhi := rv.(*ssa.Phi); isPhi && ph.Block() == blk {
+						for i, pb := range blk.Preds {
+							ev, eneg := stripNot(ph.Edges[i])
+							ewant := want != eneg
+							for v := range hedges[factEdge{pb, blk}] {
+								if k, isK := ev.(*ssa.Const); isK {
+									if bv, isB := boolConst(k); isB && bv != ewant {
+										continue
+									}
+									out[v] = true
+									continue
+								}
+								if ff.deadEdge != nil && ff.deadEdge(v, ev, ewant, resIn(c, h)) {
+									continue
+								}
+								nv := v
+								if ff.onEdge != nil {
+									set, clear := ff.onEdge(ev, ewant, resIn(c, h))
+									nv = apply(v, set, clear)
+								}
+								out[nv] = true
+							}
+						}
+						continue
+					}
 					for v := range hb[ret] {
 						if k, isK := rv.(*ssa.Const); isK {
 							if bv, isB := boolConst(k); isB && bv != want {
@@ -209,6 +251,7 @@ func (ff *factFlow) analyse(fn *ssa.Function, entry factSet, res func(ssa.Value)
 		return out
 	}
 	before := map[ssa.Instruction]factSet{}
+	edgeOut := map[factEdge]factSet{}
 	var sum factSummary
 	pass := func(record bool) bool {
 		changed := false
@@ -232,7 +275,7 @@ func (ff *factFlow) analyse(fn *ssa.Function, entry factSet, res func(ssa.Value)
 					if h := helper(c); h != nil {
 						next := factSet{}
 						for v := range state {
-							_, hs := ff.analyse(h, factSet{v: true}, resIn(c, h), depth+1)
+							_, hs, _ := ff.analyse(h, factSet{v: true}, resIn(c, h), depth+1)
 							callSum[callKey{c, v}] = hs
 							for ov := range hs.all {
 								next[ov] = true
@@ -300,6 +343,12 @@ func (ff *factFlow) analyse(fn *ssa.Function, entry factSet, res func(ssa.Value)
 				if len(ev) == 0 {
 					continue
 				}
+				if record {
+					if edgeOut[factEdge{b, sc}] == nil {
+						edgeOut[factEdge{b, sc}] = factSet{}
+					}
+					edgeOut[factEdge{b, sc}].addAll(ev)
+				}
 				if in[sc] == nil {
 					in[sc] = factSet{}
 				}
@@ -316,5 +365,5 @@ func (ff *factFlow) analyse(fn *ssa.Function, entry factSet, res func(ssa.Value)
 		}
 	}
 	pass(true)
-	return before, sum
+	return before, sum, edgeOut
 }
